@@ -177,6 +177,90 @@ def programs(cr: CheckRun, nprog: int, nsteps: int) -> None:
     cr.cov["programs"] = cr.cov.get("programs", 0) + done
 
 
+def call_programs(cr: CheckRun, nprog: int) -> None:
+    """Structured call / return programs in lockstep: near and far calls, a far jump between the call and the return (so that
+    the return executes in another 64 KiB page than the call), mismatched pairs and returns without a call.  The straight-line
+    programs above avoid the stack-based control transfers; single instructions start from a fresh core whose call bookkeeping
+    is empty - only a sequence on ONE core shows whether that bookkeeping leaks into the architectural result."""
+    sys.path.insert(0, str(vlib.VERIF / "harness" / "py"))
+    import exec_harness as eh
+    import isa_enum as en
+    rnd = random.Random(cr.seed + 66)
+    vh = Vh()
+    done = 0
+
+    def lo16(a):
+        return [a & 0xFF, (a >> 8) & 0xFF]
+
+    def far(a):
+        return [a & 0xFF, (a >> 8) & 0xFF, (a >> 16) & 0x0F]
+
+    try:
+        for k in range(nprog):
+            P, Q = rnd.sample([0x10000, 0x20000, 0x30000, 0x40000, 0x70000, 0x00000], 2)
+            a, b, c = (rnd.randrange(0x100, 0x7000) for _ in range(3))
+            b = (a + 0x800 + rnd.randrange(0x100)) & 0x7FFF
+            c = (b + 0x900 + rnd.randrange(0x100)) & 0x7FFF
+            tmpl = ["near-same-page", "near-then-far-jump", "far-call", "far-call-near-return", "near-call-far-return", "return-without-call", "nested"][k % 7]
+            code: Dict[int, List[int]] = {}
+            if tmpl == "near-same-page":
+                code[P + a] = [0x04] + lo16(b) + [0x40, 0x01, 0x00]
+                code[P + b] = [0x40, 0x02, 0x06]
+                steps = 5
+            elif tmpl == "near-then-far-jump":
+                code[P + a] = [0x04] + lo16(b) + [0x40, 0x01, 0x00]
+                code[P + b] = [0x03] + far(Q + c)
+                code[Q + c] = [0x40, 0x03, 0x06]
+                code[Q + a + 3] = [0x40, 0x05, 0x00, 0x00]        # where a return that keeps the current page lands
+                steps = 6
+            elif tmpl == "far-call":
+                code[P + a] = [0x05] + far(Q + c) + [0x40, 0x01, 0x00]
+                code[Q + c] = [0x40, 0x02, 0x07]
+                steps = 5
+            elif tmpl == "far-call-near-return":
+                code[P + a] = [0x05] + far(Q + c) + [0x00, 0x00]
+                code[Q + c] = [0x06]
+                code[Q + ((a + 4) & 0xFFFF)] = [0x40, 0x07, 0x00]
+                steps = 4
+            elif tmpl == "near-call-far-return":
+                code[P + a] = [0x04] + lo16(b) + [0x00, 0x00]
+                code[P + b] = [0x07]
+                steps = 2          # (what lies at the far return's target is arbitrary)
+            elif tmpl == "return-without-call":
+                code[P + a] = [0x40, 0x01, rnd.choice([0x06, 0x07])]
+                steps = 2
+            else:
+                code[P + a] = [0x04] + lo16(b) + [0x40, 0x01, 0x00]
+                code[P + b] = [0x05] + far(Q + c) + [0x06]
+                code[Q + c] = [0x04] + lo16((c + 0x40) & 0xFFFF) + [0x07]
+                code[Q + ((c + 0x40) & 0xFFFF)] = [0x40, 0x09, 0x06]
+                steps = 9
+            st = en.random_state(rnd)
+            st["regs"]["PC"] = P + a
+            st["regs"]["S"] = rnd.choice([0x5F000, 0x5FFFE, 0x60002]) + rnd.randrange(4)
+            regs, mem = en.build_case(b"", st)
+            for base, bs in code.items():
+                mem += [[(base + i) & 0xFFFFF, v] for i, v in enumerate(bs)]
+            # a few bytes on the stack for returns without a matching call
+            mem += [[(st["regs"]["S"] + i) & 0xFFFFF, rnd.choice([0x10, 0x20, 0x01, 0x33])] for i in range(4)]
+            rec = compare_case(eh, vh, regs, mem, n=steps)
+            done += 1
+            if not (_same(rec) and rec["steps_py"] == rec["steps_rs"]):
+                first = None
+                for n in range(1, steps + 1):
+                    if not _same(compare_case(eh, vh, regs, mem, n=n)):
+                        first = n
+                        break
+                cr.violation(f"CallProgramLockstep:{tmpl}", f"call/return program ({tmpl}) diverges at instruction {first}: py={rec['py']} rs={rec['rs']} memdiff={rec['memdiff']}",
+                             {"kind": "program", "regs": regs, "mem": mem, "n": first or steps})
+            if k == 0:
+                cr.add_sample({"call_program": tmpl, "steps": steps})
+    finally:
+        vh.close()
+    cr.cov["programs"] = cr.cov.get("programs", 0) + done
+    cr.cov["call_programs"] = done
+
+
 def run(cr: CheckRun) -> None:
     sys.path.insert(0, str(vlib.VERIF / "harness" / "py"))
     vlib.setup_repo_imports()
@@ -218,6 +302,7 @@ def run(cr: CheckRun) -> None:
         for clause, b in r[3][:2]:
             cr.add_drift(f"action=Decode clause={clause} bytes={bytes(b).hex()}")
     programs(cr, 60 if quick else 1500, 40 if quick else 200)
+    call_programs(cr, 70 if quick else 2100)
     cr.mark("programs")
     cr.cov["programs"] = cr.cov.get("programs", 0) + npairs
     cr.cov["disagreements_checked"] = nbad
